@@ -1827,11 +1827,13 @@ class BaseBosonicState(BaseState):
         var = np.sum(weights * (cov_sq_trace + 2 * mean_cov_dots)) / (2 * self._hbar**2) - 0.25
         var += np.sum(weights * ((cov_trace + mean_dots) / (2 * self._hbar) - 0.5) ** 2)
         var -= mean**2
-        mean = np.real_if_close(mean)
-        var = np.real_if_close(var)
-
-        if mean.imag != 0 or var.imag != 0:
+        # the imaginary parts of the complex-weighted terms cancel up to rounding, which is
+        # relative to the size of the terms
+        tol = 1e-9 * max(1.0, np.abs(mean), np.abs(var))
+        if np.abs(np.imag(mean)) > tol or np.abs(np.imag(var)) > tol:
             raise ValueError("Mean or variance of photon number is complex.")
+        mean = np.real(mean)
+        var = np.real(var)
 
         return mean, var
 
